@@ -14,12 +14,13 @@
    NOT proved (hence the property is claimed `partial`):
      - that bolero's exhaustive driver enumerates every value of every requested range (an
        external crate; checked per run by comparing outcome SETS with the model's, Sim/Exh.v);
-     - uniqueness of the decision string (no duplicate schedule) for keyed hooks and
-       run_hooks as a theorem (checked bounded: execution count = number of model runs);
+     - uniqueness of the decision string (no duplicate schedule) for the keyed singleton and
+       for run_hooks as a theorem (proved for stream, keyed stream hooks and the scheduler;
+       otherwise checked bounded: execution count = number of model runs);
      - the scheduler model [step_choice] is not tied to LaunchedSim::step by a per-run
        correspondence other than end-to-end outcome sets. *)
 From Coq Require Import List Arith Bool NArith Permutation.
-From HV Require Import Sim.Model Sim.PHooks Sim.PTick Sim.PComplete Sim.PCompleteK Sim.PCompleteTick.
+From HV Require Import Sim.Model Sim.PHooks Sim.PTick Sim.PComplete Sim.PCompleteK Sim.PCompleteTick Sim.PUniqueK.
 Import ListNotations.
 Close Scope N_scope.
 
@@ -97,6 +98,22 @@ Proof.
   exact (ksingle_complete keq last m rel m' HS force _ eq_refl Hf).
 Qed.
 Print Assumptions C37_ksingle_every_combination.
+
+(* ... and no keyed schedule is explored twice: equal outcomes imply equal decision strings *)
+Theorem C37_keyed_no_duplicate : forall (A K : Type),
+  (forall (m : list (K * list A)) force r d1 d2 rel1 rel2 m',
+     keyed_total_loop force r m d1 = Ok (rel1, m', []) ->
+     keyed_total_loop force r m d2 = Ok (rel2, m', []) -> d1 = d2)
+  /\ (forall (m : list (K * list A)) force r d1 d2 rel m',
+        Forall (fun e => NoDup (snd e)) m ->
+        keyed_no_loop force r m d1 = Ok (rel, m', []) ->
+        keyed_no_loop force r m d2 = Ok (rel, m', []) -> d1 = d2).
+Proof.
+  intros A K. split.
+  - exact (@keyed_total_unique A K).
+  - exact (@keyed_no_unique A K).
+Qed.
+Print Assumptions C37_keyed_no_duplicate.
 
 (* uniform: every demanded schedule [hook_spec] of every modelled hook kind *)
 Theorem C37_every_hook_schedule : forall h h' nt,
